@@ -82,6 +82,16 @@ Definition dump_of_bytes (bs : list Z) : option dump :=
   match decode_dump bs with Some v => dump_of_view v | None => None end.
 End Reader.
 
+(* ------------------------------------------------------------------ what a missing / unreadable stream means to MinidumpInfo::new *)
+(* (stream type, 0 = required: processing fails | 1 = optional: treated as absent ([sres_opt]) | 2 = optional with an empty default
+   ([sres_list])) for the streams [dump_of_view] reads; tied to the get_stream calls of MinidumpInfo::new by
+   c14_stream_policy_is_source (Gen/C14Process.v GEN_STREAM_POLICY) *)
+Definition stream_policy : list (Z * Z) :=
+  [(ST_ThreadListStream, 0); (ST_SystemInfoStream, 0);
+   (ST_ThreadNamesStream, 2); (ST_ModuleListStream, 2); (ST_UnloadedModuleListStream, 2);
+   (ST_ExceptionStream, 1); (ST_BreakpadInfoStream, 1); (ST_MiscInfoStream, 1); (ST_LinuxProcStatus, 1)].
+Definition policy_in (tbl : list (Z * Z)) (p : Z * Z) : bool := existsb (fun q => (fst p =? fst q) && (snd p =? snd q)) tbl.
+
 (* ------------------------------------------------------------------ the context reader of the correspondence run *)
 (* MinidumpContext::read (C02: layout by architecture, context_flags checked) followed by get_instruction_pointer /
    get_stack_pointer: positions of the two registers among the structure's integers in declaration order
